@@ -80,7 +80,7 @@ Decide(op, a) ==
     [] op = "OPCallback" -> DecideOPCallback(a) [] op = "RPCallback" -> DecideRPCallback(a) [] op = "Userinfo" -> DecideUserinfo(a)
     [] op = "Introspect" -> DecideIntrospect(a) [] op = "Refresh" -> DecideRefresh(a) [] op = "Revoke" -> DecideRevoke(a)
     [] op = "EndSession" -> DecideEndSession(a) [] op = "DeviceStart" -> DecideDeviceStart(a) [] op = "DeviceApprove" -> DecideDeviceApprove(a)
-    [] op = "DevicePoll" -> DecideDevicePoll(a) [] op = "TokenExchange" -> DecideTokenExchange(a) [] OTHER -> [class |-> "ok"]
+    [] op = "DevicePoll" -> DecideDevicePoll(a) [] op = "ClientCreds" -> [class |-> "error"] [] op = "TokenExchange" -> DecideTokenExchange(a) [] OTHER -> [class |-> "ok"]
 
 Ev(op, a) == [op |-> op, args |-> a, out |-> Decide(op, a)]
 
@@ -110,6 +110,7 @@ StepsOf(op) ==
     [] op = "Revoke"     -> {Ev(op, [b |-> p[1], rp |-> p[2], kind |-> k]) : p \in SessPairs, k \in {"at", "rt"}}
     [] op = "Expire"     -> {Ev(op, [b |-> p[1], rp |-> p[2]]) : p \in {q \in SessPairs : Live(q)}}
     [] op = "EndSession" -> {Ev(op, [b |-> p[1], rp |-> p[2]]) : p \in SessPairs}
+    [] op = "ClientCreds"   -> {Ev(op, [rp |-> rp]) : rp \in UseRPs}
     [] op = "DeviceStart"   -> IF cnt.d < MaxDevs THEN {Ev(op, [rp |-> rp]) : rp \in UseRPs} ELSE {}
     [] op = "DeviceApprove" -> {Ev(op, [dc |-> d, user |-> u]) : d \in {x \in DOMAIN devs : devs[x].status = "pending"}, u \in Users}
     [] op = "DevicePoll"    -> IF cnt.a < MaxTokens THEN {Ev(op, [rp |-> rp, dc |-> d]) : rp \in UseRPs, d \in DOMAIN devs} ELSE {}
